@@ -30,20 +30,27 @@ RULE = ('per-file cases = (package: 2..9 wavelengths given ascending or descendi
         'lists of wavelengths and named broadband filters (files produced by convolve_model_dir on the same cube) in '
         'every interleaving (directed) / random interleavings. Non-trivial: at '
         'least one run whose index range has >= 2 wavelengths and a chunk size < range length, or (cube) >= 2 '
-        'tabulated wavelengths. Windows with no tabulated wavelength in the closed interval are outside the quantifier '
-        'and not generated; windows with wavelengths only ON an end are compared against the sandwich only.')
+        'tabulated wavelengths. Windows holding several, one (incl. wmin == wmax ON a wavelength) or no tabulated '
+        'wavelength are all generated and compared exactly against the closed interval; ends in micron, nm, Angstrom, '
+        'cm, m; the literal default max_ram; re-runs with overwrite=True.')
 REQUIRED_BRANCHES = ['chunk_1', 'chunk_full', 'chunk_divides', 'chunk_not_divides', 'chunk_gt_range',
                      'window_default', 'window_one_sided', 'window_single_wavelength', 'end_on_node', 'end_between',
                      'nap_1', 'nap_multi', 'no_apertures', 'wav_given_asc', 'wav_given_desc', 'table_permuted',
                      'sizes_agree', 'cube_between', 'cube_on_node', 'cube_outside', 'cube_aperture_dependent',
-                     'cube_named_entry', 'cube_mixed_name_before_wavelength', 'cube_mixed_name_after_wavelength']
+                     'cube_named_entry', 'cube_mixed_name_before_wavelength', 'cube_mixed_name_after_wavelength',
+                     'window_empty', 'window_wmin_eq_wmax_on_node', 'ends_other_unit', 'default_max_ram',
+                     'rerun_overwrite', 'cube_wavelength_other_unit']
 ASSUMPTIONS = [
     'packages are stored in mJy; SED.read(unit_flux=mJy) computes (x*nu)/nu, so file contents are compared with the '
-    'SED cells to 1e-15 relative (4 ulp); contents are compared bit-exactly between chunk sizes',
-    'window ends are passed in micron; the open/closed status of an end that coincides with a tabulated wavelength is '
-    'not fixed by the property: only emitted ⊆ closed window and open window ⊆ emitted is judged there; if such a '
-    'window leaves the code\'s half-open range [wav_min, wav_max) empty the code raises ValueError (range() step 0) and '
-    'the model predicts exactly that; this is recorded (branch end_on_node_empty_raises), not judged',
+    'SED cells to 1e-13 relative; contents are compared bit-exactly between memory limits',
+    'the window is the closed interval [wav_min, wav_max]: a file exists for wavelength j iff wav_min <= lambda_j <= '
+    'wav_max, compared strictly, also at ends ON tabulated wavelengths, for wav_min == wav_max and for empty windows '
+    '(no file, the call succeeds); an exception is a violation',
+    'window ends / filter wavelengths given in nm, Angstrom, cm or m: the code compares Quantities, i.e. converts the '
+    'end to micron; model and expectation use that converted micron float (an end given ON a tabulated wavelength '
+    'in another unit may land one ulp beside it)',
+    're-runs with overwrite=True into a non-empty convolved/: files of the new window are rewritten, files of earlier '
+    'runs outside it stay untouched, the returned table names the new window only',
     'the chunk size that results from max_ram is verified through the code\'s own log lines '
     '("chunks of N" / "one go", "Processing wavelengths a to b")',
     'model names shorter than 30 characters without surrounding blanks',
@@ -102,11 +109,13 @@ def end_positions(wav):
     return vals
 
 
+UNITS = ['micron', 'nm', 'Angstrom', 'cm', 'm']
+
+
 def all_windows(wav):
-    """every (wmin, wmax) with ends below/on/between/above nodes or defaulted (None) whose closed interval holds at
-    least one tabulated wavelength"""
+    """every (wmin, wmax), wmin <= wmax, with ends below / on / between / above nodes or defaulted (None): windows
+    holding several, one or no tabulated wavelength"""
     vals = end_positions(wav)
-    w = sorted(wav)
     ends_lo = [None] + vals
     ends_hi = vals + [None]
     out = []
@@ -114,9 +123,7 @@ def all_windows(wav):
         for b in ends_hi:
             if a is not None and b is not None and a > b:
                 continue
-            closed = [x for x in w if (a is None or a <= x) and (b is None or x <= b)]
-            if closed:
-                out.append((a, b))
+            out.append((a, b))
     return out
 
 
@@ -133,18 +140,49 @@ def directed_runs(pkg, rng):
     runs = []
     for s in range(1, n + 1):
         runs.append(dict(wmin=None, wmax=None, size=s))                       # default window, all sizes
+    runs.append(dict(wmin=None, wmax=None, size=None))                         # literal default max_ram
+    runs.append(dict(wmin=mid(0), wmax=mid(2), size=None))
     runs.append(dict(wmin=mid(0), wmax=None, size=2))                          # one-sided
     runs.append(dict(wmin=None, wmax=mid(n - 2), size=2))
     runs.append(dict(wmin=mid(0), wmax=mid(1), size=1))                        # single wavelength strictly inside
     runs.append(dict(wmin=mid(0), wmax=mid(1), size=n))
-    runs.append(dict(wmin=w[0], wmax=w[-1], size=2))                           # both ends on nodes
-    runs.append(dict(wmin=w[1], wmax=w[1], size=1))                            # degenerate: only the sandwich
-    runs.append(dict(wmin=mid(0), wmax=w[1], size=1))
-    runs.append(dict(wmin=w[1], wmax=mid(1), size=1))
+    runs.append(dict(wmin=w[0], wmax=w[-1], size=2))                           # both ends on nodes: both included
+    for s in (1, 2):
+        runs.append(dict(wmin=w[1], wmax=w[1], size=s))                        # wmin == wmax == a node: exactly that one
+        runs.append(dict(wmin=mid(0), wmax=w[1], size=s))                      # upper end on a node: included
+        runs.append(dict(wmin=w[1], wmax=mid(1), size=s))                      # lower end on a node: included
+        runs.append(dict(wmin=w[1], wmax=w[2], size=s))                        # two adjacent nodes as ends: both
+        runs.append(dict(wmin=mid(1) * 0.99, wmax=mid(1) * 1.01, size=s))      # empty window between two nodes
+        runs.append(dict(wmin=w[-1] * 2., wmax=w[-1] * 3., size=s))            # empty window above the table
+        runs.append(dict(wmin=w[0] / 3., wmax=w[0] / 2., size=s))              # empty window below the table
     if n >= 4:
         runs.append(dict(wmin=w[0] / 2., wmax=mid(2), size=2))                 # 3 wavelengths, chunk 2: not dividing
         runs.append(dict(wmin=w[0] / 2., wmax=mid(3) if n > 4 else w[-1] * 2., size=2))   # 4 wavelengths, chunk 2: dividing
+    # ends given in other length units (also ends on nodes)
+    for k, un in enumerate(UNITS[1:]):
+        runs.append(dict(wmin=mid(0), wmax=mid(n - 2), size=1 + k % 2, unit=un))
+        runs.append(dict(wmin=w[1], wmax=w[n - 2], size=2, unit=un))
+    # re-runs into the non-empty convolved/ with overwrite=True (another window, another chunk size)
+    runs.append(dict(wmin=mid(0), wmax=mid(2), size=1, rerun=True))
+    runs.append(dict(wmin=None, wmax=mid(1), size=2, rerun=True))
+    runs.append(dict(wmin=None, wmax=None, size=n, rerun=True))
     return runs
+
+
+def decorate_runs(runs, rng):
+    """random units / default max_ram / overwrite re-runs on a list of plain runs"""
+    out = []
+    for r in runs:
+        r = dict(r)
+        x = rng.random()
+        if x < 0.2:
+            r['unit'] = rng.choice(UNITS[1:])
+        elif x < 0.25:
+            r['size'] = None
+        elif x < 0.35 and out:
+            r['rerun'] = True
+        out.append(r)
+    return out
 
 
 def interleavings(n_wav_entries, n_names):
@@ -179,7 +217,10 @@ def gen_cube_case(rng, directed=False):
         return w[0] * 0.5 if kind == 'below' else w[-1] * 3.
 
     def entry_w(x=None):
-        return dict(wav=draw_wav() if x is None else x, ap=rng.randrange(max(nap, 1)))
+        e = dict(wav=draw_wav() if x is None else x, ap=rng.randrange(max(nap, 1)))
+        if rng.random() < 0.3:
+            e['unit'] = rng.choice(UNITS[1:])
+        return e
 
     # broadband filters strictly inside the tabulated range
     broad = []
@@ -246,7 +287,7 @@ def gen_cases(seed, tier):
         rng.shuffle(wins)
         n = len(pkg['wav'])
         runs = [dict(wmin=a, wmax=b, size=s) for (a, b) in wins[:max(2, RUNS_PER_CASE // n)] for s in range(1, n + 1)]
-        yield dict(kind='perfile', pkg=pkg, runs=runs, all_sizes=True)
+        yield dict(kind='perfile', pkg=pkg, runs=decorate_runs(runs, rng), all_sizes=True)
     for _ in range(n_cube):
         rng = case_rng(seed, PID, i); i += 1
         yield gen_cube_case(rng)
@@ -268,28 +309,49 @@ def build_perfile(pkg, d):
                          table_order=pkg['table'], file_names=pkg['stems'], aperture_dependent=False)
 
 
+def _unit(name):
+    return getattr(u, name or 'micron')
+
+
+def derived_micron(x, unit_name):
+    """the Quantity handed to the code for a nominal micron value, and the micron float the code derives from it"""
+    if x is None:
+        return None, None
+    q = (x * u.micron).to(_unit(unit_name))
+    return q, float(q.to_value(u.micron))
+
+
 def run_mono(d, nm, nap, run):
-    """one call of the real function in a package dir whose convolved/ is empty; returns dict(raised=…) or
-    dict(files={stem: ConvolvedFluxes}, table=[(wav, filter)], log=[…])"""
+    """one call of the real function; convolved/ is emptied first unless run['rerun'] (then overwrite=True is passed);
+    returns dict(raised=…) or dict(files={stem: ConvolvedFluxes}, table=[(wav, filter)], log=[…])"""
     from astropy import log
     from sedfitter.convolve import convolve_model_dir_monochromatic
     from sedfitter.convolved_fluxes import ConvolvedFluxes
     conv = os.path.join(d, 'convolved')
-    shutil.rmtree(conv, ignore_errors=True)
-    max_ram = run['size'] * (4 * 2 * nm * nap) / 1024. ** 3 * (1 + 1e-9)
     kw = {}
-    if run['wmin'] is not None:
-        kw['wav_min'] = run['wmin'] * u.micron
-    if run['wmax'] is not None:
-        kw['wav_max'] = run['wmax'] * u.micron
+    if run.get('rerun'):
+        kw['overwrite'] = True
+    else:
+        shutil.rmtree(conv, ignore_errors=True)
+    if run['size'] is None:
+        max_ram = 8.                                            # the literal default
+    else:
+        max_ram = run['size'] * (4 * 2 * nm * nap) / 1024. ** 3 * (1 + 1e-9)
+        kw['max_ram'] = max_ram
+    qlo, lo = derived_micron(run['wmin'], run.get('unit'))
+    qhi, hi = derived_micron(run['wmax'], run.get('unit'))
+    if qlo is not None:
+        kw['wav_min'] = qlo
+    if qhi is not None:
+        kw['wav_max'] = qhi
     old = log.level
     log.setLevel('INFO')
     try:
         with common.quiet(), log.log_to_list() as ll:
             try:
-                t = convolve_model_dir_monochromatic(d, max_ram=max_ram, **kw)
+                t = convolve_model_dir_monochromatic(d, **kw)
             except Exception as e:
-                return dict(raised='%s: %s' % (type(e).__name__, e), max_ram=max_ram)
+                return dict(raised='%s: %s' % (type(e).__name__, e), max_ram=max_ram, lo=lo, hi=hi)
     finally:
         log.setLevel(old)
     msgs = [r.getMessage() if hasattr(r, 'getMessage') else str(r.msg) for r in ll]
@@ -300,7 +362,7 @@ def run_mono(d, nm, nap, run):
                 files[f[:-5]] = ConvolvedFluxes.read(os.path.join(conv, f))
     table = [(float(w), (x.decode() if isinstance(x, bytes) else str(x)).strip())
              for w, x in zip(np.asarray(t['wav'].to(u.micron).value if hasattr(t['wav'], 'to') else t['wav']), t['filter'])]
-    return dict(raised=None, files=files, table=table, log=msgs, max_ram=max_ram)
+    return dict(raised=None, files=files, table=table, log=msgs, max_ram=max_ram, lo=lo, hi=hi)
 
 
 def parse_log(msgs):
@@ -354,65 +416,58 @@ def check_perfile(case, d, branches, with_model=True):
         m = names.index(n)
         sed_toks.append(' '.join([n, _rows(ids[m][:, desc].tolist()), _rows((ids[m][:, desc] + ids.size).tolist())]))
     ap_vals = pkg['aps'] if pkg['aps'] else [1e-30]      # what the first SED's aperture list reads as (value only)
+    disk = {}                                   # digest of every file currently in convolved/
     for run in case['runs']:
-        tag = 'window=[%r, %r] chunk=%d' % (run['wmin'], run['wmax'], run['size'])
-        lo, hi = run['wmin'], run['wmax']
+        unit = run.get('unit') or 'micron'
+        tag = 'window=[%r, %r] %s chunk=%s%s' % (run['wmin'], run['wmax'], unit,
+                                                  'default max_ram' if run['size'] is None else run['size'],
+                                                  ' (re-run, overwrite=True)' if run.get('rerun') else '')
+        before = dict(disk) if run.get('rerun') else {}
+        res = run_mono(d, nm, nap, run)
+        lo, hi = res['lo'], res['hi']           # the micron floats the code derives from the quantities given
         closed = [j for j in range(nw) if (lo is None or lo <= wdesc[j]) and (hi is None or wdesc[j] <= hi)]
-        opened = [j for j in range(nw) if (lo is None or lo < wdesc[j]) and (hi is None or wdesc[j] < hi)]
         on_node = (lo is not None and lo in wav) or (hi is not None and hi in wav)
         branches.add('end_on_node' if on_node else 'end_between')
+        if unit != 'micron':
+            branches.add('ends_other_unit')
         if lo is None and hi is None:
             branches.add('window_default')
         elif lo is None or hi is None:
             branches.add('window_one_sided')
-        res = run_mono(d, nm, nap, run)
-        # ---- model
-        jlo = jhi = None
-        m_emitted = None
-        m_raise = None
-        if with_model:
-            drv = common.driver()
-            t = drv.ask('window %s %s %s' % (rats(wdesc), _end(lo), _end(hi)))
-            jlo, jhi = int(t.tok()), int(t.tok())
-            t = drv.ask('chunksize %d %s %d %d %d %d' % (nw, rat(res['max_ram']), nm, nap, jlo, jhi))
-            rf, first, chunk = int(t.tok()), int(t.tok()), int(t.tok())
-            if rf != run['size']:
-                mod.append('%s: harness self-check: max_ram gives floor %d, intended %d' % (tag, rf, run['size']))
-                continue
-            t = drv.ask('chunks %d %d %d' % (jlo, jhi, chunk))
-            if t.tok() == 'ok':
-                m_emitted = [int(x) for x in [t.tok() for _ in range(t.nat())]]
-                m_passes = [(int(t.tok()), int(t.tok())) for _ in range(t.nat())]
-            else:
-                m_raise = t.tok()
-        # ---- implementation raised
+        if run['size'] is None:
+            branches.add('default_max_ram')
+        if run.get('rerun'):
+            branches.add('rerun_overwrite')
+        # ---- implementation raised: the property promises a result for every window
         if res['raised']:
-            if not opened and on_node:
-                # the code's half-open window is empty: outside what the property fixes (see ASSUMPTIONS)
-                if with_model and m_raise != 'zeroStep':
-                    mod.append('%s: implementation raised %s; model: %r' % (tag, res['raised'], m_emitted))
-                else:
-                    branches.add('end_on_node_empty_raises')
-                continue
-            prop.append('%s: raised %s; the window holds wavelength indices %r' % (tag, res['raised'], opened))
+            prop.append('%s: raised %s; the closed window holds wavelength indices %r' % (tag, res['raised'], closed))
+            disk = {}
             continue
-        got = sorted(int(s[2:]) - 1 for s in res['files'] if re.match(r'MO\d+$', s))
-        extra = [s for s in res['files'] if not re.match(r'MO\d+$', s)]
-        # ---- property: sandwich, table, contents
+        now = {st: file_digest(cf) for st, cf in res['files'].items()}
+        disk = dict(now)
+        extra = [st for st in res['files'] if not re.match(r'MO\d+$', st)]
         if extra:
             prop.append('%s: unexpected files %r' % (tag, extra))
-        if not (set(opened) <= set(got) <= set(closed)):
-            prop.append('%s: files for wavelength indices %r (λ=%r); strictly inside the window: %r, inside the closed '
-                        'window: %r' % (tag, got, [float(wdesc[j]) for j in got if 0 <= j < nw], opened, closed))
+        # files written by this call = everything on disk that was not there (unchanged) before
+        want_stems = {'MO%03d' % (j + 1) for j in closed}
+        if set(now) != want_stems | set(before):
+            prop.append('%s: files %r; wavelengths inside the closed window: indices %r (λ=%r)%s'
+                        % (tag, sorted(now), closed, [float(wdesc[j]) for j in closed],
+                           '; before the re-run: %r' % sorted(before) if before else ''))
             continue
+        stale = [st for st in before if st not in want_stems and before[st] != now[st]]
+        if stale:
+            prop.append('%s: files outside the window changed during the re-run: %r' % (tag, stale))
+        if not closed:
+            branches.add('window_empty')
         if len(res['table']) != nw or not np.allclose([w for w, _ in res['table']], wdesc, rtol=1e-12, atol=0):
             prop.append('%s: returned table wavelengths %r, SED wavelengths %r' % (tag, [w for w, _ in res['table']], wdesc.tolist()))
         else:
             named = {j: f for j, (_, f) in enumerate(res['table']) if f}
-            want = {j: 'MO%03d' % (j + 1) for j in got}
+            want = {j: 'MO%03d' % (j + 1) for j in closed}
             if named != want:
-                prop.append('%s: returned table names %r, files written %r' % (tag, named, want))
-        for j in got:
+                prop.append('%s: returned table names %r, wavelengths inside the window %r' % (tag, named, want))
+        for j in closed:
             cf = res['files']['MO%03d' % (j + 1)]
             k = desc[j]
             rn = [str(x).strip() for x in cf.model_names]
@@ -427,21 +482,21 @@ def check_perfile(case, d, branches, with_model=True):
             ee = err[rows][:, :, k]
             gf = np.asarray(cf.flux.to(u.mJy).value, float)
             ge = np.asarray(cf.error.to(u.mJy).value, float)
-            if gf.shape != ef.shape or not np.all(np.abs(gf - ef) <= 1e-15 * np.abs(ef)):
+            if gf.shape != ef.shape or not np.all(np.abs(gf - ef) <= 1e-13 * np.abs(ef)):
                 prop.append('%s: MO%03d flux rows %r, SED cells at λ=%r in table order %r' % (tag, j + 1, gf.tolist(), float(wdesc[j]), ef.tolist()))
-            if ge.shape != ee.shape or not np.all(np.abs(ge - ee) <= 1e-15 * np.abs(ee)):
+            if ge.shape != ee.shape or not np.all(np.abs(ge - ee) <= 1e-13 * np.abs(ee)):
                 prop.append('%s: MO%03d error rows %r, SED cells %r' % (tag, j + 1, ge.tolist(), ee.tolist()))
             if pkg['aps'] is not None:
                 if cf.apertures is None or not np.allclose(cf.apertures.to(u.au).value, pkg['aps'], rtol=1e-12, atol=0):
                     prop.append('%s: MO%03d apertures %r' % (tag, j + 1, cf.apertures))
-        # ---- identical across chunk sizes
+        # ---- identical across memory limits (the window as the code sees it is the key)
         wkey = (lo, hi)
-        dig = {s: file_digest(cf) for s, cf in res['files'].items()}
+        dig = {st: now[st] for st in want_stems}
         dig['__table__'] = tuple(res['table'])
         if wkey in by_window:
             s0, d0 = by_window[wkey]
             if d0 != dig:
-                prop.append('window=[%r, %r]: files / contents / table differ between chunk size %d (%r) and %d (%r)'
+                prop.append('window=[%r, %r]: files / contents / table differ between chunk size %r (%r) and %r (%r)'
                             % (lo, hi, s0, sorted(k for k in d0 if k != '__table__'), run['size'],
                                sorted(k for k in dig if k != '__table__')))
             else:
@@ -449,13 +504,16 @@ def check_perfile(case, d, branches, with_model=True):
         else:
             by_window[wkey] = (run['size'], dig)
         # ---- branches
-        n_range = len(got)
+        n_range = len(closed)
         if n_range == 1:
             branches.add('window_single_wavelength')
-        eff = min(run['size'], nw)
-        if run['size'] == 1:
+            if lo is not None and lo == hi:
+                branches.add('window_wmin_eq_wmax_on_node')
+        size = nw if run['size'] is None else run['size']
+        eff = min(size, nw)
+        if size == 1:
             branches.add('chunk_1')
-        if run['size'] >= nw:
+        if size >= nw:
             branches.add('chunk_full')
         if eff > n_range:
             branches.add('chunk_gt_range')
@@ -465,27 +523,39 @@ def check_perfile(case, d, branches, with_model=True):
         # ---- model vs implementation
         if not with_model:
             continue
-        if m_raise is not None:
-            mod.append('%s: model raises %s, implementation wrote %r' % (tag, m_raise, got))
+        drv = common.driver()
+        t = drv.ask('window %s %s %s' % (rats(wdesc), _end(lo), _end(hi)))
+        jlo, jhi = int(t.tok()), int(t.tok())
+        t = drv.ask('chunksize %d %s %d %d %d %d' % (nw, rat(res['max_ram']), nm, nap, jlo, jhi))
+        rf, first, chunk = int(t.tok()), int(t.tok()), int(t.tok())
+        if run['size'] is not None and rf != run['size']:
+            mod.append('%s: harness self-check: max_ram gives floor %d, intended %d' % (tag, rf, run['size']))
             continue
-        if m_emitted != got:
-            mod.append('%s: model emits %r (jlo=%d jhi=%d chunk=%d), implementation wrote %r' % (tag, m_emitted, jlo, jhi, chunk, got))
+        t = drv.ask('chunks %d %d %d' % (jlo, jhi, chunk))
+        if t.tok() != 'ok':
+            mod.append('%s: model chunk loop raises %s, implementation returned' % (tag, t.tok()))
+            continue
+        m_emitted = [int(x) for x in [t.tok() for _ in range(t.nat())]]
+        m_passes = [(int(t.tok()), int(t.tok())) for _ in range(t.nat())]
+        if m_emitted != closed:
+            mod.append('%s: model emits %r (jlo=%d jhi=%d chunk=%d), implementation wrote %r' % (tag, m_emitted, jlo, jhi, chunk, closed))
             continue
         lfirst, lpasses = parse_log(res['log'])
-        if lfirst is None or not lpasses:
+        if lfirst is None or (closed and not lpasses):
             mod.append('%s: harness self-check: the log lines of the chunk loop were not captured' % tag)
         if lfirst is not None and lfirst != ('all' if first == nw else first):
             mod.append('%s: log says chunks of %r, model min(n_wav, floor)=%d' % (tag, lfirst, first))
-        if lpasses and lpasses != m_passes:
+        if lpasses != m_passes:
             mod.append('%s: log passes %r, model passes %r' % (tag, lpasses, m_passes))
-        line = ['monofiles', rats(wdesc), rats(ap_vals), str(nm)] + sed_toks + \
-               [' '.join([str(nm)] + list(pkg['table'])), str(jlo), str(jhi), str(chunk)]
+        # the whole call in one op: files and table
+        line = ['monorun', rats(wdesc), rats(ap_vals), str(nm)] + sed_toks + \
+               [' '.join([str(nm)] + list(pkg['table'])), _end(lo), _end(hi), rat(res['max_ram'])]
         t = drv.ask(' '.join(line))
         if t.tok() != 'ok':
-            mod.append('%s: model monofiles raised %s' % (tag, t.tok()))
+            mod.append('%s: model monorun raised %s' % (tag, t.tok()))
             continue
         nf = t.nat()
-        if nf != len(got):
+        if nf != len(closed):
             mod.append('%s: model writes %d files' % (tag, nf))
             continue
         for _ in range(nf):
@@ -503,10 +573,14 @@ def check_perfile(case, d, branches, with_model=True):
             ok = (mn == [str(x).strip() for x in cf.model_names] and
                   abs(fw - float(cf.central_wavelength.to(u.micron).value)) <= 1e-12 * fw and
                   mf.shape == gf.shape and
-                  np.all(np.abs(gf - flux.reshape(-1)[mf]) <= 1e-15 * np.abs(gf)) and
-                  np.all(np.abs(ge - err.reshape(-1)[me]) <= 1e-15 * np.abs(ge)))
+                  np.all(np.abs(gf - flux.reshape(-1)[mf]) <= 1e-13 * np.abs(gf)) and
+                  np.all(np.abs(ge - err.reshape(-1)[me]) <= 1e-13 * np.abs(ge)))
             if not ok:
                 mod.append('%s: MO%03d differs from the model (names %r / %r)' % (tag, j + 1, mn, [str(x).strip() for x in cf.model_names]))
+        mt = [t.tok() for _ in range(t.nat())]
+        mt = ['' if x == '-' else x for x in mt]
+        if mt != [f for _, f in res['table']]:
+            mod.append('%s: returned table %r, model table %r' % (tag, [f for _, f in res['table']], mt))
     return prop, mod, nontrivial
 
 
@@ -556,12 +630,12 @@ def check_cube(case, d, branches, with_model=True):
         branches.add('cube_aperture_dependent')
     wdesc = np.sort(wav)[::-1]
     for lst in lists:
-        shown = [e.get('name', e.get('wav')) for e in lst]
+        shown = [e.get('name', (e.get('wav'), e.get('unit', 'micron'))) for e in lst]
         # at 1 kpc (aperture / 1000) arcsec is aperture a of the table; never the smallest one (a rounding below it
         # would be "too small")
         picks = [max(1, e['ap']) if apdep else 0 for e in lst]
         ap_arcsec = [pkg['aps'][a] / 1000. for a in picks] if apdep else [1.] * len(lst)
-        fl = [e['name'] if 'name' in e else e['wav'] * u.micron for e in lst]
+        fl = [e['name'] if 'name' in e else derived_micron(e['wav'], e.get('unit'))[0] for e in lst]
         kinds = ['n' if 'name' in e else 'w' for e in lst]
         if 'n' in kinds and 'w' in kinds:
             first_w, last_w = kinds.index('w'), len(kinds) - 1 - kinds[::-1].index('w')
@@ -592,7 +666,9 @@ def check_cube(case, d, branches, with_model=True):
                     prop.append('filters %r: entry %d (%s): model fluxes %r; convolved file holds %r'
                                 % (shown, i, e['name'], got[:, i].tolist(), want.tolist()))
                 continue
-            x = e['wav']
+            x = derived_micron(e['wav'], e.get('unit'))[1]     # the micron float the code derives
+            if e.get('unit'):
+                branches.add('cube_wavelength_other_unit')
             dist = np.abs(wav - x)
             k = int(np.argmin(dist))
             srt = np.sort(dist)
